@@ -47,6 +47,7 @@ func VerifH_C08_skip() {
 	m.ways = append(m.ways, m.genWay(-1, -1, 1, 1))
 	m.rels = append(m.rels, m.genRel(-1, 1, 1, false))
 	m.nodes = append(m.nodes, mNode{id: m.symS("id"), lat: m.symS("lat"), lon: m.symS("lon"), info: m.symInfo()})
+	m.mixed = vRange("waysAndRelationsInOneGroup", 0, 1) == 1
 	c08Run(m, vRange("skip", 0, 7), vRange("filters", 0, 1) == 1)
 }
 
